@@ -499,7 +499,12 @@ def check(ctx):
             it3 = Interp(repo, max_depth=12)
             try:
                 heater, _a, _r = build_heater(repo, it3, units=u, heating=flags[0], cooling=flags[1])
-            except (PyRaise, Undecided) as e:
+            except PyRaise as e:
+                ctx.ob("R8", f"GeckoWaterHeater.__init__::unit={u}::flags={flags}", False,
+                       f"GeckoWaterHeater cannot be built on a pack with the unit item reading {u!r}, heating flag {'absent' if flags[0] is None else 'present'}, cooling flag "
+                       f"{'absent' if flags[1] is None else 'present'}: raises {e.what}", repo.method("GeckoWaterHeater", "__init__").loc)
+                continue
+            except Undecided as e:
                 raise AnalysisError(f"GeckoWaterHeater construction: {e}")
             for m in hmembers:
                 if m.name in ("monitor",) and False:
